@@ -546,16 +546,21 @@ class Interp:
         return out
 
     def _leaf_init_source(self, e, env):
+        """the object an abstract (leaf) object is initialised from; a list when the initialiser names several components
+        (the domain must know how to assemble them, otherwise the extraction is unusable -- never silently the first one)"""
+        srcs = []
         for c in e.get("inner", []):
             if c["kind"] == "InitListExpr":
                 r = self._leaf_init_source(c, env)
                 if r is not None:
-                    return r
+                    srcs.append(r)
             elif c["kind"] in ("IntegerLiteral", "ImplicitValueInitExpr"):
                 continue
             else:
-                return self.ev(c, env)
-        return None
+                srcs.append(self.ev(c, env))
+        if not srcs:
+            return None
+        return srcs[0] if len(srcs) == 1 else srcs
 
     # ---------------- expressions ----------------
     def rv(self, v):
